@@ -130,9 +130,9 @@ static void std_push(cs_scenario *sc, int entry, int np, int p1, int p2,
 /* the weighted variant of the connection-repeatability family: one
    connection deviates, and the measurement-error model is declared on a
    grid of its own (as many points as the calibration, other frequencies)
-   with a noise floor linear in frequency: 1e-7 at the first calibration
-   frequency, 1e-2 at 1e13 Hz, i.e. below 1e-6 at every calibration
-   frequency */
+   with a noise floor linear in frequency: 1e-8 at the first calibration
+   frequency, 1e-3 at 1e14 Hz, i.e. below 1e-7 at every calibration
+   frequency (the pull towards the nominal value is then below 1e-10) */
 static int g_corr_dev;
 
 static const double line_deg[5] = { 60.0, 120.0, 30.0, 90.0, 150.0 };
@@ -469,19 +469,19 @@ static void attempt(cs_scenario *sc, const int *unk, int nunk, double ptol,
     if (limit > 0 && vnacal_new_set_iteration_limit(vnp, limit) != 0) { o->rc = -6; goto out; }
     if (weight && g_corr_dev && sc->vna.nf > 1) {
 	const int n = sc->vna.nf;
-	const double f0 = sc->vna.f[0], fend = 1.0e13;
+	const double f0 = sc->vna.f[0], fend = 1.0e14;
 	double fv[CS_MAXF], sv[CS_MAXF];
 	for (int k = 0; k < n; ++k) {
 	    fv[k] = k == 0 ? f0 : k == n - 1 ? fend :
 		sc->vna.f[k] + 0.4 * (sc->vna.f[k + 1] - sc->vna.f[k]);
-	    sv[k] = 1e-7 + 1e-2 * (fv[k] - f0) / (fend - f0);
+	    sv[k] = 1e-8 + 1e-3 * (fv[k] - f0) / (fend - f0);
 	}
 	if (vnacal_new_set_m_error(vnp, fv, n, sv, NULL) != 0) {
 	    o->rc = -5;
 	    goto out;
 	}
     } else if (weight) {
-	double nf = g_corr_dev ? 1e-7 : 1e-5;
+	double nf = g_corr_dev ? 1e-8 : 1e-5;
 	if (vnacal_new_set_m_error(vnp, NULL, 1, &nf, NULL) != 0) {
 	    o->rc = -5;
 	    goto out;
